@@ -603,7 +603,11 @@ nni_http_conn_reset(nng_http *conn)
 	nni_http_req_reset(&conn->req);
 	nni_http_res_reset(&conn->res);
 	(void) snprintf(conn->meth, sizeof(conn->meth), "GET");
-	if (strlen(conn->host)) {
+	if (!conn->client) {
+		// A server learns the host from each request; it must not
+		// carry over to the next request on the connection.
+		conn->host[0] = '\0';
+	} else if (strlen(conn->host)) {
 		nni_http_set_host(conn, conn->host);
 	}
 	if (conn->uri != NULL && conn->uri != conn->ubuf) {
